@@ -72,6 +72,12 @@ CLAIMED += [
               "TLC checks cursor bounds, pre-crash live ranges intact and disjoint from probe allocations, and probe termination. On the real code the arena file is "
               "copied before every step of TLC-generated schedules, reopened with map_mut in a forked child and probed; TraceCrash judges; model counterexamples "
               "(schedule + crash index) are replayed first."),
+    dict(property_id="C13", engine="handles", technique="TLA+ spec (Handles.tla) model-checked with TLC + replay of its state graph on the real code + TLC trace validation; extents via ArenaProps on the sequential core suite; concurrent teardown via ArenaSync",
+         design_ref="6 C13", note=SEQ_NOTE + " The release of the backing memory is observed at the entry of Memory::unmount (hook).",
+         text="Handles.tla transcribes Clone/Drop of arena values, to_owned and the Drop impls of the four handle types; every history of <= 7 lifetime calls is model-checked "
+              "(refs = live arena values, memory released exactly once at zero, remove-on-drop file removed exactly then, needs-drop value dropped once) and its state graph "
+              "is replayed on real sync/unsync arenas (Vec/anon/file); every release event of the sequential suite is judged (own extent once, detached releases nothing, owned = "
+              "borrowed); clone/drop on different threads is model-checked and replayed under the controlled scheduler (freed once, no access after free)."),
 ]
 
 NOT_YET = "check not built yet in this round (construction in progress; see DESIGN.md section 11)"
@@ -108,6 +114,8 @@ def main():
         "engines": [
             {"name": "sync", "path": "lib/eng_sync.py", "serves_properties": ["C02", "C07", "C12"],
              "kind_free_text": "ArenaSync.tla (one action per atomic access of sync.rs, byte-exact memory) + MCSync; harness/src/conc.rs controlled scheduler; TraceSyncProp / TraceSyncImpl"},
+            {"name": "handles", "path": "lib/check_handles.py", "serves_properties": ["C13"],
+             "kind_free_text": "Handles.tla + MCHandles; harness handles subcommand; TraceHandles; plus C13 predicates of ArenaProps (seq) and teardown scenarios (sync)"},
             {"name": "crash", "path": "lib/check_crash.py", "serves_properties": ["C06"],
              "kind_free_text": "MCCrash.tla over ArenaSync; harness conc (snapshots) + probe (forked reopen under alarm); TraceCrash"},
             {"name": "seq", "path": "lib/eng_seq.py", "serves_properties": sorted(c["property_id"] for c in CLAIMED if c["engine"] == "seq"),
